@@ -68,6 +68,46 @@ func runC02(r *Report, tier string) {
 			why = "two structure elements are fed from the same parameter"
 		}
 		o.check(why == "", "matches the spec term; encoder "+fmt.Sprint(b["ENC"]), why)
+		// the protected elements are the head normaliser's own results on every
+		// alternative (the spec term above cannot tell a bypass of the
+		// normaliser from the normaliser returning its argument unchanged)
+		{
+			norm := P.headNormalizer()
+			P.expandKeep = func(f *ssa.Function) bool { return f == norm }
+			ct2 := canon(P.terms.expand(P.terms.of(s.content), 8))
+			P.expandKeep = nil
+			pos := []int{1}
+			if kind == "Signature" {
+				pos = []int{1, 2}
+			}
+			whyN := ""
+			arrs := encodedArrays(ct2)
+			if len(arrs) == 0 {
+				whyN = "no encoded array found in the content term"
+			}
+			for _, a := range arrs {
+				for _, i := range pos {
+					if i >= len(a.Args) {
+						whyN = "the encoded array is shorter than the structure"
+						continue
+					}
+					el := a.Args[i]
+					for el.Op == "iface" && len(el.Args) == 1 {
+						el = el.Args[0]
+					}
+					for _, alt := range flattenAlts(el) {
+						v := alt
+						for v.Op == "iface" && len(v.Args) == 1 {
+							v = v.Args[0]
+						}
+						if !(v.Op == "res" && v.S == "0" && len(v.Args) == 1 && v.Args[0].Op == "call" && v.Args[0].S == shortFn(norm)) {
+							whyN = fmt.Sprintf("element %d of the structure can be %s, which has not passed through %s", i, truncate(v.String(), 140), shortFn(norm))
+						}
+					}
+				}
+			}
+			r.ob("R02.1", shortFn(s.fn)+":protected-normalised", s.fn, s.call, "every alternative of the protected elements is the head normaliser's result").check(whyN == "", fmt.Sprintf("%d array(s), positions %v", len(arrs), pos), whyN)
+		}
 		// R02.2
 		loads, _ := footprint(ct)
 		o2 := r.ob("R02.2", shortFn(s.fn)+":footprint", s.fn, s.call, "no unprotected header, signature or tag contributes to the signed bytes")
